@@ -248,8 +248,8 @@ type VerifC08Obs struct {
 	HTC   bool   `json:"htc"`
 	HOpt  string `json:"hopt"`
 	HDo   bool   `json:"hdo"`
-	HLen  int    `json:"hlen"` // packed length of the handler response as built
-	Full  int    `json:"full"` // packed length of all handler records + the reply's OPT
+	HLen  int    `json:"hlen"`  // packed length of the handler response as built
+	Full  int    `json:"full"`  // packed length of all handler records + the reply's OPT
 	Slack int    `json:"slack"` // bytes of the limit the transport keeps free (DNSCrypt library: 64)
 	HRc   int    `json:"hrcode"`
 	Sent  bool   `json:"sent"`
